@@ -256,7 +256,7 @@ def _switch_flips_groupby(ctx, fi, loop, enc, params, zipped_encodings):
         fl = [e_[2] for e_ in ps.effects if e_[0] == "augstore" and u(e_[1]).endswith(".flips")]
         sw = [e_[2] for e_ in ps.effects if e_[0] == "augstore" and u(e_[1]).endswith(".switches")]
         if ps.has(key, True):
-            ok = len(fl) == 1 and len(sw) == 1 and isinstance(fl[0], ast.BinOp) and isinstance(fl[0].op, ast.FloorDiv) and u(fl[0].right) == "2" and isinstance(sw[0], ast.BinOp) and isinstance(sw[0].op, ast.Mod) and u(sw[0].right) == "2"
+            ok = (None if not fl else (len(fl) == 1 and len(sw) == 1 and isinstance(fl[0], ast.BinOp) and isinstance(fl[0].op, ast.FloorDiv) and u(fl[0].right) == "2" and isinstance(sw[0], ast.BinOp) and isinstance(sw[0].op, ast.Mod) and u(sw[0].right) == "2"))
             if ok:
                 import re as _re
 
@@ -394,7 +394,7 @@ def r3(ctx):
                 final = ps.env.get(run)
                 final_lf = linear(final) if final is not None else {run: 1}
                 if want_flush:
-                    okf = len(fl) == 1 and len(sw_) == 1
+                    okf = (None if not fl else (len(fl) == 1 and len(sw_) == 1))
                     if okf:
                         fv, sv = undivmod(fl[0][2]), undivmod(sw_[0][2])
                         okf = isinstance(fv, ast.BinOp) and isinstance(fv.op, ast.FloorDiv) and u(fv.right) == "2" and linear(fv.left) == runlf and isinstance(sv, ast.BinOp) and isinstance(sv.op, ast.Mod) and u(sv.right) == "2" and linear(sv.left) == runlf
